@@ -306,7 +306,7 @@ class FnT:
     def setup_records(self):
         """constructor parameter order, defaults and the attribute each parameter is stored in, from `__init__`"""
         RECORDS.clear()
-        self.rec_defaults, self.rec_attr = {}, {}
+        self.rec_defaults, self.rec_attr, self.rec_norm = {}, {}, {}
         for cname, ftypes in self.spec.records.items():
             cls = [n for n in ast.walk(self.module) if isinstance(n, ast.ClassDef) and n.name == cname]
             init, seen = [], 0
@@ -339,6 +339,35 @@ class FnT:
                     if isinstance(tg, ast.Attribute) and isinstance(tg.value, ast.Name) and tg.value.id == "self" \
                             and isinstance(vl, ast.Name) and vl.id in params:
                         amap[tg.attr] = vl.id
+            # a normalising store `self.a = C if p is None else p` / `p if p is not None else C` / `p if p else C`
+            # (C the falsy constant of the type in the last form): with the field declared with its stored,
+            # non-optional type the record holds the stored value, None given to the constructor becomes C
+            self.rec_norm[cname] = {}
+            for st in init.body:
+                if not (isinstance(st, ast.Assign) and len(st.targets) == 1 and isinstance(st.value, ast.IfExp)):
+                    continue
+                tg, ie = st.targets[0], st.value
+                if not (isinstance(tg, ast.Attribute) and isinstance(tg.value, ast.Name) and tg.value.id == "self"):
+                    continue
+                t_, b_, o_ = ast.unparse(ie.test), ie.body, ie.orelse
+                pn_ = cst = None
+                if isinstance(o_, ast.Name) and t_ == "%s is None" % o_.id:
+                    pn_, cst, falsy_only = o_.id, b_, False
+                elif isinstance(b_, ast.Name) and t_ == "%s is not None" % b_.id:
+                    pn_, cst, falsy_only = b_.id, o_, False
+                elif isinstance(b_, ast.Name) and t_ == b_.id:
+                    pn_, cst, falsy_only = b_.id, o_, True
+                if pn_ not in params or isinstance(ftypes[pn_], tuple) or any(q == pn_ for q in amap.values()):
+                    continue
+                ct = ast.unparse(cst)
+                if ftypes[pn_] == BYTES and ct in ("bytearray()", "bytes()", "b''"):
+                    self.rec_norm[cname][pn_] = "([] : Bytes)"
+                elif ftypes[pn_] == INT and isinstance(cst, ast.Constant) and type(cst.value) is int \
+                        and (cst.value == 0 or not falsy_only):
+                    self.rec_norm[cname][pn_] = "(%d : Int)" % cst.value
+                else:
+                    continue
+                amap[tg.attr] = pn_
             self.rec_attr[cname] = amap
             self.spec.rec_fields[cname] = [(p, ftypes[p], ([a for a, q in amap.items() if q == p] or [None])[0])
                                            for p in params]
@@ -377,13 +406,29 @@ class FnT:
 
     def call_ctor(self, cname, n, env, pre):
         fields = RECORDS[cname]
-        args = [self.expr(a, env, pre) for a in n.args]
+        if any(isinstance(a, ast.Starred) for a in n.args) or any(k.arg is None for k in n.keywords):
+            raise Refuse("constructor %s with * / ** arguments" % cname)
+        args = [self.expr(a, env, pre) for a in n.args]      # Python: positional arguments first ..
         if len(args) > len(fields):
             raise Refuse("constructor %s with %d arguments" % (cname, len(args)))
+        byname = {}
+        for k in n.keywords:                                  # .. then the keyword values in source order
+            if k.arg not in [pn for pn, _ in fields[len(args):]] or k.arg in byname:
+                raise Refuse("constructor %s: keyword %s is unknown, repeated or already given by position" % (cname, k.arg))
+            byname[k.arg] = self.expr(k.value, env, pre)
         for (pn, pt) in fields[len(args):]:
-            if pn not in self.rec_defaults[cname]:
+            if pn in byname:
+                args.append(byname[pn])
+            elif pn in self.rec_defaults[cname]:
+                args.append(self.lit_val(self.rec_defaults[cname][pn]))
+            else:
                 raise Refuse("constructor %s: no argument and no constant default for %s" % (cname, pn))
-            args.append(self.lit_val(self.rec_defaults[cname][pn]))
+        norm = self.rec_norm.get(cname, {})
+        for k, (a, (pn, pt)) in enumerate(zip(args, fields)):
+            if pn in norm and a.ty == NONE:
+                args[k] = Val(norm[pn], pt)
+            elif pn in norm and a.ty == OPT(pt):
+                args[k] = Val("(match %s with | some v => v | none => %s)" % (a.code, norm[pn]), pt)
         args = [self.coerce(a, pt, "constructor argument %s of %s" % (pn, cname)) for a, (pn, pt) in zip(args, fields)]
         return Val(self.rec_build(cname, [a.code for a in args]), REC(cname))
 
@@ -600,6 +645,8 @@ class FnT:
             raise Refuse("int operator %s" % op)
         if a.ty == BYTES and b.ty == BYTES and op == "Add":
             return Val("(%s ++ %s)" % (a.code, b.code), BYTES)
+        if a.ty == STR and b.ty == STR and op == "Add":
+            return Val("(%s ++ %s)" % (a.code, b.code), STR)
         def as_int_list(v):
             if isinstance(v.ty, tuple) and v.ty[0] == "tuple" and all(x == INT for x in v.ty[1:]):
                 return Val("[" + ", ".join(self.comp(v, i).code for i in range(len(v.ty) - 1)) + "]", LIST(INT))
@@ -751,6 +798,15 @@ class FnT:
                 raise Refuse("constant tuple index out of range")
             proj = ".2" * k + (".1" if k < arity - 1 else "")
             return Val("%s%s" % (atom(v.code), proj), v.ty[1 + k], False)
+        if i.ty == BOOL and isinstance(v.ty, tuple) and v.ty[0] == "tuple" and len(v.ty) >= 3 \
+                and v.ty[1] == v.ty[2]:
+            # `(a, b)[flag]`: False is index 0, True is index 1 (both exist, nothing can raise); the tuple is
+            # evaluated completely before the index
+            return Val("(if %s = true then %s else %s)" % (i.code, self.comp(v, 1).code, self.comp(v, 0).code), v.ty[1], False)
+        if i.ty == BOOL and v.ty == BYTES:
+            t = self.temp()
+            pre.append(("bind", t, ["PyFn.getB %s (if %s = true then 1 else 0)" % (v.code, i.code)]))
+            return Val(t, INT, True)
         if i.ty != INT:
             raise Refuse("index of type %s" % (i.ty,))
         if v.ty == BYTES:
@@ -818,7 +874,7 @@ class FnT:
             v = env[ast.unparse(n)]
             return Val(v.lean, v.ty, v.nn)
         text = ast.unparse(n.func)
-        if n.keywords and text not in self.spec.opaque:
+        if n.keywords and text not in self.spec.opaque and self.rec_class(text) is None:
             raise Refuse("keyword arguments in call %s" % ast.unparse(n.func))
         if text in self.spec.opaque:
             pname, atys, rty, mon = self.spec.opaque[text]
@@ -880,7 +936,17 @@ class FnT:
             y = self.expr(n.args[0], env, pre)
             if x.ty == BYTES and y.ty == BYTES:
                 return Val("(decide (List.isPrefixOf %s %s = true))" % (y.code, x.code), BOOL)
+            if x.ty == STR and y.ty == STR:
+                return Val("(PyFn.strStartsWith %s %s)" % (x.code, y.code), BOOL)
             raise Refuse("startswith on %s, %s" % (x.ty, y.ty))
+        if isinstance(n.func, ast.Attribute) and n.func.attr == "endswith" and len(n.args) == 1:
+            x = self.expr(n.func.value, env, pre)
+            y = self.expr(n.args[0], env, pre)
+            if x.ty == BYTES and y.ty == BYTES:
+                return Val("(List.isSuffixOf %s %s)" % (y.code, x.code), BOOL)
+            if x.ty == STR and y.ty == STR:
+                return Val("(PyFn.strEndsWith %s %s)" % (x.code, y.code), BOOL)
+            raise Refuse("endswith on %s, %s" % (x.ty, y.ty))
         raise Refuse("call of %s" % text)
 
     def call_translated(self, lean, n, env, pre):
@@ -1142,8 +1208,27 @@ class FnT:
 
     FSIZE = {"B": 1, "Hbe": 2, "Hle": 2, "Ibe": 4, "Ile": 4}
 
-    def c_struct_pack(self, n, env, pre):
-        f = n.args[0]
+    def c_struct_pack(self, n, env, pre, fmt_node=None):
+        f = n.args[0] if fmt_node is None else fmt_node
+        if fmt_node is None:
+            choice = None
+            if isinstance(f, ast.IfExp):
+                choice = (f.test, f.body, f.orelse)
+            elif isinstance(f, ast.Name) and f.id in env and getattr(env[f.id], "choice", None):
+                choice = env[f.id].choice
+            if choice is not None and all(isinstance(x, ast.Constant) and isinstance(x.value, str) for x in choice[1:]):
+                # `pack(fmt1 if c else fmt2, ..)`: each format in its branch (the arguments are evaluated in both
+                # copies, only one of which runs)
+                c = self.cond(choice[0], env, pre) if not isinstance(choice[0], str) else choice[0]
+                p1, p2 = [], []
+                v1 = self.c_struct_pack(n, dict(env), p1, fmt_node=choice[1])
+                v2 = self.c_struct_pack(n, dict(env), p2, fmt_node=choice[2])
+                self.no_mutation(p1 + p2)
+                t = self.temp()
+                r1 = self.wrap_pre(p1, Res([v1.code], False)).lifted()
+                r2 = self.wrap_pre(p2, Res([v2.code], False)).lifted()
+                pre.append(("bind", t, ["if %s then" % c] + indent(paren(r1)) + ["else"] + indent(paren(r2))))
+                return Val(t, BYTES)
         if not (isinstance(f, ast.Constant) and isinstance(f.value, str)):
             raise Refuse("struct.pack with a computed format")
         fields = self.parse_fmt(f.value)
@@ -1630,22 +1715,38 @@ class FnT:
             env = dict(env)
             self.expr(e, env, pre)         # evaluated for its exception, the value is discarded
             return self.wrap_pre(pre, self.block(rest, env, k))
-        if isinstance(e, ast.Call) and isinstance(e.func, ast.Attribute) and isinstance(e.func.value, ast.Name) \
-                and e.func.value.id in env and isinstance(env[e.func.value.id].ty, tuple) \
-                and env[e.func.value.id].ty[0] == "list" and e.func.attr in ("append", "extend") and len(e.args) == 1:
-            name = e.func.value.id
+        # methods of a list / deque held in a local name or in a `stores=` attribute (`self.sock_list.appendleft(s)`)
+        lname = None
+        if isinstance(e, ast.Call) and isinstance(e.func, ast.Attribute):
+            if isinstance(e.func.value, ast.Name):
+                lname = e.func.value.id
+            elif isinstance(e.func.value, ast.Attribute) and ast.unparse(e.func.value) in self.spec.stores:
+                lname = ast.unparse(e.func.value)
+        if lname is not None and lname in env and isinstance(env[lname].ty, tuple) and env[lname].ty[0] == "list" \
+                and ((e.func.attr in ("append", "extend", "appendleft", "remove") and len(e.args) == 1)
+                     or (e.func.attr == "popleft" and not e.args)) and not e.keywords:
+            name, meth = lname, e.func.attr
             if name in self.aliased:
                 raise Refuse("mutation of %s which may be aliased" % name)
             pre = []
             env = dict(env)
-            a = self.expr(e.args[0], env, pre)
             lt = env[name].ty
-            if e.func.attr == "append":
-                a = Val("[%s]" % self.coerce(a, lt[1], "appended element").code, lt)
-            if a.ty != lt:
-                raise Refuse("%s of %s to %s" % (e.func.attr, a.ty, lt))
-            new = self.fresh(name)
-            pre.append(("let", new, ["%s ++ %s" % (env[name].lean, a.code)]))
+            new = self.fresh(name.split(".")[-1].lstrip("_") or "v")
+            if meth == "popleft":
+                pre.append(("bind", new, ["PyFn.popLeft %s" % env[name].lean], name))
+            else:
+                a = self.expr(e.args[0], env, pre)
+                if meth in ("append", "appendleft", "remove"):
+                    a = self.coerce(a, lt[1], "%s argument" % meth)
+                if meth == "remove":
+                    pre.append(("bind", new, ["PyFn.removeFirst %s %s" % (env[name].lean, atom(a.code))], name))
+                else:
+                    if meth != "extend":
+                        a = Val("[%s]" % a.code, lt)
+                    if a.ty != lt:
+                        raise Refuse("%s of %s to %s" % (meth, a.ty, lt))
+                    pre.append(("let", new, ["%s ++ %s" % ((a.code, env[name].lean) if meth == "appendleft"
+                                                          else (env[name].lean, a.code))]))
             env[name] = Var(new, lt)
             return self.wrap_pre(pre, self.block(rest, env, k))
         if isinstance(e, ast.Call) and isinstance(e.func, ast.Attribute) and isinstance(e.func.value, ast.Name) \
@@ -2108,8 +2209,13 @@ class FnT:
                     for t in x.targets:
                         tgt(t)
                 elif isinstance(x, ast.Call) and isinstance(x.func, ast.Attribute) \
-                        and x.func.attr in ("pop", "extend", "append") and isinstance(x.func.value, ast.Name):
-                    add(x.func.value.id)
+                        and x.func.attr in ("pop", "extend", "append", "appendleft", "remove", "popleft", "insert",
+                                            "clear", "reverse", "sort"):
+                    # in-place mutation through a method: of a local name or of a `stores=` attribute
+                    if isinstance(x.func.value, ast.Name):
+                        add(x.func.value.id)
+                    elif isinstance(x.func.value, ast.Attribute) and ast.unparse(x.func.value) in self.spec.stores:
+                        add(ast.unparse(x.func.value))
         return out
 
     def state_tuple(self, names, env):
@@ -2795,7 +2901,7 @@ def parse_code(t, depth=0):
         return "pSet"
     if isinstance(t, tuple) and t[0] == "list":
         return "(pListOf %s)" % parse_code(t[1], depth)
-    if isinstance(t, tuple) and t[0] == "opt" and t[1] in (INT, BYTES):
+    if isinstance(t, tuple) and t[0] == "opt" and t[1] in (INT, BYTES, STR):
         return "(pOpt %s)" % parse_code(t[1], depth)
     if isinstance(t, tuple) and t[0] == "tuple":
         if depth >= len(TUPLE_SEPS):
@@ -2859,9 +2965,11 @@ def emit_driver(specs, out_dir):
             groups.append(sp.group)
     L = ["import NfcVerif.Gen.Fn%s" % g for g in groups]
     L += ["/-! GENERATED by harness/translate_fn.py (dispatch table of the self-test driver) - do not edit. -/",
-          "namespace NfcVerif.Gen.FnDispatch", "open NfcVerif", DRIVER_PRELUDE,
-          "def run (name : String) (args : List String) : String :=", "  match name, args with"]
+          "namespace NfcVerif.Gen.FnDispatch", "open NfcVerif", DRIVER_PRELUDE]
+    head = list(L)
+    cases = []            # one entry per dispatched function: its lines of the match
     for sp in specs:
+        L = []
         if sp.refused:
             continue
         if sp.opaque and not all(set(a) <= {INT, BYTES, BOOL} and r in (INT, BYTES) for (_, a, r, _) in sp.opaque.values()):
@@ -2898,7 +3006,25 @@ def emit_driver(specs, out_dir):
             L.append("    | %s => %s" % (", ".join("some " + x for x in xvars), body))
             if n >= 1:
                 L.append('    | %s => "bad-args"' % ", ".join("_" for _ in xvars))
-    L += ['  | _, _ => "unknown"', "", "end NfcVerif.Gen.FnDispatch", ""]
+        cases.append(L)
+    # the table is split into chunks (one big `match` exceeds the compiler's heartbeat limit beyond ~450 cases)
+    L, chunk = head, 40
+    nchunks = (len(cases) + chunk - 1) // chunk
+    for c in range(nchunks):
+        L += ["def run%d (name : String) (args : List String) : Option String :=" % c, "  match name, args with"]
+        for cs in cases[c * chunk:(c + 1) * chunk]:
+            L.append(cs[0].replace(" => (", " => some (", 1) if len(cs) == 1 else cs[0])
+            if len(cs) > 1:
+                L.append(cs[1])
+                L.append(cs[2].replace(" => (", " => some (", 1))
+                L.append(cs[3].replace('=> "bad-args"', '=> some "bad-args"'))
+        L += ["  | _, _ => none", ""]
+    L += ["def run (name : String) (args : List String) : String :="]
+    body = '"unknown"'
+    for c in reversed(range(nchunks)):
+        body = "(run%d name args).getD %s" % (c, body) if body == '"unknown"' else \
+            "match run%d name args with | some r => r | none => %s" % (c, body)
+    L += ["  " + body, "", "end NfcVerif.Gen.FnDispatch", ""]
     text = "\n".join(L)
     path = os.path.join(out_dir, "FnDispatch.lean")
     old = open(path).read() if os.path.exists(path) else None
